@@ -256,7 +256,7 @@ import builtins as _builtins  # noqa: E402
 
 CONSTS = {"NotImplemented": NotImplemented, "builtins": _builtins, "inf": math.inf, "math.inf": math.inf, "math.nan": math.nan, "math.pi": math.pi, "sys.float_info.min": sys.float_info.min,
           "sys.float_info.max": sys.float_info.max, "sys.float_info.epsilon": sys.float_info.epsilon, "sys.maxsize": sys.maxsize}
-STR_METHODS = {"splitlines", "expandtabs", "isspace", "zfill", "ljust", "rjust", "center", "swapcase", "casefold", "isidentifier", "isdigit", "isalpha", "isalnum", "isupper", "islower", "title", "capitalize", "startswith", "endswith", "lstrip", "rstrip", "strip", "lower", "upper", "split", "rpartition", "partition", "replace", "join",
+STR_METHODS = {"rsplit", "splitlines", "expandtabs", "isspace", "zfill", "ljust", "rjust", "center", "swapcase", "casefold", "isidentifier", "isdigit", "isalpha", "isalnum", "isupper", "islower", "title", "capitalize", "startswith", "endswith", "lstrip", "rstrip", "strip", "lower", "upper", "split", "rpartition", "partition", "replace", "join",
                "removeprefix", "removesuffix", "decode", "encode", "isdigit", "format", "count", "find", "is_integer", "real", "imag", "hex", "bit_length",
                "conjugate", "as_integer_ratio", "get", "keys", "values", "items", "index", "copy", "union", "intersection", "issubset", "issuperset", "difference", "isdisjoint"}
 
